@@ -72,7 +72,7 @@ Print Assumptions C11_once_awaitable.
 Theorem C11_once_subscriber u e oid : Inv e ->
   (length (dsigs oid (snd (ep_step u e LClose))) <= opn e oid)%nat /\
   (tcount oid (snd (ep_step u e LClose)) + opn (fst (ep_step u e LClose)) oid <= opn e oid)%nat.
-Proof. intro I. exact (step_sigs u e LClose oid I eq_refl). Qed.
+Proof. exact (step_sigs u e LClose oid). Qed.
 Print Assumptions C11_once_subscriber.
 
 (* a link cut at ANY byte offset has delivered a prefix of the frames (nothing reordered, nothing invented) *)
